@@ -196,8 +196,13 @@ def invariant_obligations(ctx, facts, rule=None):
                 ctx.ob(R("KEYCTOR"), "%s(_) is produced only after the valid-key guard [0-9A-Za-z._-]+" % variant, okvalid and r[1][2][0] == ("arg", 1), fn=KC, site=fn_site(facts, KC), detail="; ".join(show_canon(a) for a in o["atoms"])[:200])
                 if variant == "Lower":
                     AZ = sum(1 << c for c in range(65, 91))
-                    g = [a for a in o["atoms"] if a[0] == "all" and a[3] is True and a[1] == ("Input", 1)]
-                    okl = any((boolsum.charset(boolsum.pred_formula(facts, summ, a[2]), facts) & AZ) == 0 for a in g)
+                    # all(P) holds / any(!P) does not hold: every char satisfies P
+                    g = [a for a in o["atoms"] if a[0] in ("all", "any") and a[3] is (a[0] == "all") and a[1] == ("Input", 1)]
+
+                    def cls(a):
+                        cs = boolsum.charset(boolsum.pred_formula(facts, summ, a[2]), facts)
+                        return cs if a[0] == "all" else boolsum.universe() & ~cs
+                    okl = any((cls(a) & AZ) == 0 for a in g)
                     ctx.ob(R("KEYCTOR"), "Lower(_) only under a guard whose character class excludes [A-Z]", okl, fn=KC, site=fn_site(facts, KC), detail="; ".join(show_canon(a) for a in g)[:200])
     # ------------------------------------------------------------ KEYCHECK
     callers = {}
